@@ -98,6 +98,8 @@ inductive Op where
   | btimeout (c g nonce : Nat)
   /-- `MsgBridgeCall` (`pre = false`) / precompile `bridgeCall` with ERC-20 tokens (`pre = true`) -/
   | bcout (c u r : Nat) (tokens : List (Nat × Nat)) (pre : Bool)
+  /-- precompile `bridgeCall` with `msg.value = v` (FX, group `gfx`) in addition to ERC-20 tokens -/
+  | vbcout (c gfx u r v : Nat) (tokens : List (Nat × Nat))
   /-- observed `MsgBridgeCallResultClaim` -/
   | bcresult (c nonce : Nat) (success : Bool)
   /-- outgoing bridge call timed out (`cleanupTimeOutBridgeCall`) -/
@@ -177,7 +179,7 @@ def envOk (cfg : Cfg) (cs : ChainSt) (tokens : List (Nat × Nat)) : Bool :=
 
 def Op.chain? : Op → Option Nat
   | .deposit c .. | .send c .. | .xsend c .. | .vsend c .. | .xincfee c .. | .cancel c .. | .incfee c .. | .batch c .. | .executed c ..
-  | .btimeout c .. | .bcout c .. | .bcresult c .. | .bctimeout c .. | .bcin c .. | .bcinfail c .. => some c
+  | .btimeout c .. | .bcout c .. | .vbcout c .. | .bcresult c .. | .bctimeout c .. | .bcin c .. | .bcinfail c .. => some c
   | _ => none
 
 /-- operations that touch the batch records of their chain -/
@@ -495,6 +497,16 @@ def stepCore (cfg : Cfg) (s : State) : Op → Except Err State
     let s1 ← run s (flIn ++ flOut)
     pure (finish s1 c { cs with
       calls := ⟨cs.nextCall, u, r, tokens, !pre⟩ :: cs.calls, nextCall := cs.nextCall + 1 } [] [])
+  | .vbcout c gfx u r v tokens => do
+    -- `value.Cmp(0) == 1`: the origin coin is prepended to the converted tokens
+    if v = 0 then .error .invalid else
+    if cfg.kind gfx ≠ some .fx then .error .notFound else
+    let cs := s.chains c
+    let flIn ← pairsFlow cfg tokens (fun k g n => convertERC20 k g (U u) (U u) n)
+    let flOut ← tokensFlow cfg c ((gfx, v) :: tokens) (fun k g n => baseCoinToBridgeToken k g c (U u) n)
+    let s1 ← run s (valueIn gfx (U u) v ++ (flIn ++ flOut))
+    pure (finish s1 c { cs with
+      calls := ⟨cs.nextCall, u, r, (gfx, v) :: tokens, false⟩ :: cs.calls, nextCall := cs.nextCall + 1 } [] [])
   | .bcresult c nonce success => do
     let cs := s.chains c
     let some (call, rest) := extract (·.nonce == nonce) cs.calls | .error .notFound
@@ -591,6 +603,10 @@ def opFlow (cfg : Cfg) (s : State) : Op → Except Err (List Prim)
     let flIn ← if pre then pairsFlow cfg tokens (fun k g n => convertERC20 k g (U u) (U u) n) else pure []
     let flOut ← tokensFlow cfg c tokens (fun k g n => baseCoinToBridgeToken k g c (U u) n)
     pure (flIn ++ flOut)
+  | .vbcout c gfx u _ v tokens => do
+    let flIn ← pairsFlow cfg tokens (fun k g n => convertERC20 k g (U u) (U u) n)
+    let flOut ← tokensFlow cfg c ((gfx, v) :: tokens) (fun k g n => baseCoinToBridgeToken k g c (U u) n)
+    pure (valueIn gfx (U u) v ++ (flIn ++ flOut))
   | .bcresult c nonce success => do
     let some (call, _) := extract (·.nonce == nonce) (s.chains c).calls | .error .notFound
     if success then pure [] else refundFlow cfg c call
@@ -640,6 +656,7 @@ def stated (s : State) (op : Op) (x : Addr) (g' : Nat) : Int :=
   | .executed .. => 0
   | .btimeout .. => 0
   | .bcout _ u _ ts _ => - many u ts
+  | .vbcout _ gfx u _ v ts => - many u ((gfx, v) :: ts)
   | .bcresult c nonce success =>
     if success then 0 else
     match extract (·.nonce == nonce) (s.chains c).calls with
